@@ -61,6 +61,54 @@ RECURSIVE Run(_, _)
 Run(ctx, ls) == IF ls = <<>> \/ ctx = "reject" THEN ctx ELSE Run(StepCtx(ctx, Head(ls)), Tail(ls))
 Accepts(ls) == Run("top", ls) # "reject"
 
+(* ---------------------------------------------------------------------- *)
+(* The documented attribution order (C14), for the comment groups where it *)
+(* is unambiguous.  A group is a maximal run of comment lines.  The         *)
+(* indentation CLASS of a line is indented / unindented (what the lexer's   *)
+(* indent and dedent marks distinguish).                                    *)
+(*   leading   the model directly below has the same class                  *)
+(*   trailing  else: some model of the same class ends on the line directly *)
+(*             above (the line's own model or a model enclosing it - which  *)
+(*             of them is not prescribed: all are candidates)               *)
+(*   standalone otherwise                                                   *)
+IsModel(k) == k \in {"dir", "txn", "opt", "head", "meta", "post", "pmeta"}
+Cls(k) == IF Indented(k) THEN 1 ELSE 0
+CtxBefore(ls, i) == Run("top", SubSeq(ls, 1, i - 1))
+
+\* groups for which the rule is ambiguous are not judged
+Ambiguous(ls, i, j) ==
+    \/ \E k \in i..j : ls[k] # ls[i]                                       \* mixed indentation inside the group
+    \/ (Indented(ls[i]) /\ Body(CtxBefore(ls, i)) \notin {"dir", "txn", "post"})   \* indented comment outside any body
+    \/ (~Indented(ls[i]) /\ CtxBefore(ls, i) \in {"dir0", "txn0"} /\ j < Len(ls) /\ Indented(ls[j + 1]))
+                                                                          \* unindented comment between a header and its body
+
+\* header lines of the models whose span ends exactly on line e
+EndingAt(ls, e) ==
+    IF e = 0 THEN {}
+    ELSE (IF IsModel(ls[e]) THEN {e} ELSE {})
+         \cup {h \in 1..e - 1 : ls[h] \in {"dir", "txn"} /\ Indented(ls[e]) /\
+                  \A j \in h + 1..e : \/ (Indented(ls[j]) /\ ls[j] # "ws")
+                                      \/ (ls[j] = "com" /\ \A k \in h + 1..j : ls[k] = "com")}   \* comments between header and body
+         \cup {h \in 1..e - 1 : ls[h] = "post" /\ \A j \in h + 1..e : ls[j] \in {"pmeta", "meta", "icom", "dcom"}}
+
+GroupStarts(ls) == {i \in 1..Len(ls) : IsComment(ls[i]) /\ (i = 1 \/ ~IsComment(ls[i - 1]))}
+GroupEnd(ls, i) == CHOOSE j \in i..Len(ls) : (\A k \in i..j : IsComment(ls[k])) /\ (j = Len(ls) \/ ~IsComment(ls[j + 1]))
+
+SetToSeq(S) == LET RECURSIVE B(_) B(T) == IF T = {} THEN <<>>
+                                           ELSE LET m == CHOOSE x \in T : \A y \in T : x <= y IN <<m>> \o B(T \ {m})
+               IN B(S)
+
+RuleFor(ls, i) ==
+    LET j == GroupEnd(ls, i)  c == Cls(ls[i])
+        cands == {h \in EndingAt(ls, i - 1) : Cls(ls[h]) = c}
+    IN IF Ambiguous(ls, i, j) THEN [line |-> i, kind |-> "skip", owners |-> <<>>]
+       ELSE IF j < Len(ls) /\ IsModel(ls[j + 1]) /\ Cls(ls[j + 1]) = c THEN [line |-> i, kind |-> "leading", owners |-> <<j + 1>>]
+       ELSE IF cands # {} THEN [line |-> i, kind |-> "trailing", owners |-> SetToSeq(cands)]
+       ELSE [line |-> i, kind |-> "standalone", owners |-> <<>>]
+
+Rule(ls) == IF ~Accepts(ls) THEN <<>>
+            ELSE LET S == SetToSeq(GroupStarts(ls)) IN [k \in 1..Len(S) |-> RuleFor(ls, S[k])]
+
 Init == lines = <<>> /\ devAt = 0 /\ dev = "none" /\ eol \in Eols /\ final \in Finals
 
 AddLine(k) ==
@@ -73,7 +121,7 @@ AddLine(k) ==
 Next == \E k \in Kinds : AddLine(k)
 
 Emit == PrintT(<<"TRACE", ToJson([lines |-> lines, devAt |-> devAt, dev |-> dev, eol |-> eol, final |-> final,
-                                  accept |-> Accepts(lines)])>>)
+                                  accept |-> Accepts(lines), rule |-> Rule(lines)])>>)
 
 \* every document is a state; nothing to check on the design itself except that the automaton is total
 TypeOK == Run("top", lines) \in {"top", "dir0", "txn0", "dir", "txn", "post", "reject"}
